@@ -840,6 +840,8 @@ def run(chk, args):
                         "every sink on a working chip of the machine; width, height >= 1",
                         "random.random() returns k / 2^53 with 0 <= k < 2^53",
                         "allocations of the core resource are slices within 0..18 (Routes.core raises otherwise)"]
+    import time as _t
+    _ph = [(_t.time(), 'start')]
     chk.regenerate(UNITS)
     built = chk.prove()
     rng = chk.rng
@@ -915,12 +917,14 @@ def run(chk, args):
         corpus = os.path.join(lib.VERIF, "corpus", "C03.json")
         if os.path.exists(corpus):
             cases = json.load(open(corpus)) + cases
+    _ph.append((_t.time(), 'prove+generate'))
     # implementation on the materialised cases
     size = 170 if quick else 2500
     chunks = [cases[i:i + size] for i in range(0, len(cases), size)]
     outs = [o for part in chk.impl_parallel("impl_c03.py", chunks, timeout=3000) for o in part]
     for c, o in zip(cases, outs):
         judge(c, o)
+    _ph.append((_t.time(), 'impl+oracle (compared cases)'))
     # long routes (oracle only: the trees are too deep for the Coq literals) and object-reuse histories (every
     # route() of a history is judged, and compared with the model, against the fault sets current at that call)
     if not args.replay:
@@ -944,6 +948,7 @@ def run(chk, args):
                 for k, (mstate, ok) in enumerate(zip(history_states(c), o["steps"])):
                     ck = dict(c, kind="valid", machine=mstate, fault="history-step-%d" % min(k, 3))
                     judge(ck, ok)
+    _ph.append((_t.time(), 'long+histories impl'))
     # a larger dense-fault stream judged by the independent oracle only (the repair step is where trees go wrong;
     # about one dense case in a thousand made the code as found attach a chip twice)
     if not args.replay:
@@ -956,6 +961,7 @@ def run(chk, args):
         for part, outp in zip(dchunks, chk.impl_parallel("impl_c03.py", dchunks, timeout=3000)):
             for c, o in zip(part, outp):
                 judge(c, o, coq=False)
+    _ph.append((_t.time(), 'bulk oracle-only streams'))
     # thorough: the exhaustive small domain, streamed; the oracle judges every case, the model / validators are
     # evaluated in Coq on every 50th
     if not quick and not args.replay:
@@ -981,6 +987,7 @@ def run(chk, args):
                     n_ex[0] += 1
                     judge(c, o, coq=(n_ex[0] % 50 == 0))
         chk.count("exhaustive-cases-run", n_ex[0])
+    _ph.append((_t.time(), 'exhaustive'))
     # model + validators inside Coq
     if chk.model_ok and built is not False:
         exprs = [coq_ner_expr(c, o) if i is None else coq_route_expr(c, o, i) for c, o, i in pending]
@@ -1049,6 +1056,7 @@ def run(chk, args):
                 chk.oblige("correspondence:ner_net exact tree and dict-order equality (%d executions), route() final "
                            "tree equality (%d nets), check_tree accepted / agreed with the oracle on %d real outputs"
                            % (n_ner, n_fin, n_v), True)
+    _ph.append((_t.time(), 'coq: per-net cases'))
     if chk.model_ok and built is not False and multi:
         try:
             vs = chk.coq_eval(HEADER, [coq_nets_expr(c, o) if k == "nets" else coq_hist_expr(c, o) for k, c, o in multi],
@@ -1073,6 +1081,7 @@ def run(chk, args):
                            % (sum(1 for k, _, _ in multi if k == "nets"), sum(1 for k, _, _ in multi if k == "hist")), True)
         except RuntimeError as e:
             chk.oblige("correspondence:multi-model-evaluates", False, str(e))
+    _ph.append((_t.time(), 'coq: route_nets/run_history'))
     if chk.model_ok and built is not False and long_v:
         try:
             vs = chk.coq_eval(HEADER, [coq_check_tree_expr(c, o, 0) for c, o in long_v], shard=1, timeout=1200,
@@ -1085,6 +1094,8 @@ def run(chk, args):
                 chk.oblige("validator:check_tree accepts the long routes (%d trees of 1200-2500 hops)" % len(vs), True)
         except RuntimeError as e:
             chk.oblige("validator:long-routes-evaluate", False, str(e))
+    _ph.append((_t.time(), 'coq: long routes'))
+    chk.coverage["phase_seconds"] = dict((n, round(t - _ph[k][0], 1)) for k, (t, n) in enumerate(_ph[1:]))
     chk.coverage["rule"] = (
         "route(): random machines up to 7x7 (plus 8x8..10x10 for the hexagon-scan branch, up to 8x12 in the dense-fault "
         "stream) incl. 1xN and 2xN, torus / mesh / partly wrapped, dead chips, dead links in one or both directions, "
